@@ -68,7 +68,7 @@ Theorem post_ok_reading c a f :
   let p := eval_project (c_proj c) a in
   Permutation f (if c_distinct c then dedup sol_eqb p else p)
   /\ (c_distinct c = true -> NoDup f /\ forall r, In r f <-> In r p)
-  /\ (keys_visible c = true -> Sorted (fun x y => lexP (c_order c) x y) f).
+  /\ (keys_visible c = true -> StronglySorted (lexP (c_order c)) f).
 Proof.
   unfold post_ok. intros H. apply andb_true_iff in H. destruct H as [H1 H2].
   apply (permb_sound _ _ sol_eqb_spec) in H1. simpl. split; [exact H1|]. split.
@@ -77,7 +77,7 @@ Proof.
     + intros r. rewrite <- (dedup_In _ _ sol_eqb_spec (eval_project (c_proj c) a) r).
       split; apply Permutation_in; auto. now apply Permutation_sym.
   - intros Hv. rewrite Hv in H2. apply sortedb_Sorted in H2.
-    clear H1. induction H2 as [|x r Hs IH Hh]; constructor; auto.
+    clear H1. apply Sorted_SS_lexP. induction H2 as [|x r Hs IH Hh]; constructor; auto.
     destruct Hh; constructor. now apply lex_le_iff.
 Qed.
 
